@@ -416,7 +416,7 @@ class Column:
                 if "property" in item:
                     for key, value in item["property"].items():
                         if key == "SET" and "CHARACTER" in p[0]["type"].upper():
-                            p[0]["type"] = p[0]["type"].split("CHARACTER")[0].strip()
+                            p[0]["type"] = p[0]["type"][: p[0]["type"].upper().index("CHARACTER")].strip()
                             key = f"CHARACTER_{key}".lower()
                         p[0][key] = value
                     del item["property"]
